@@ -371,7 +371,19 @@ def vals_tokens(vals):
 
 
 def line_weights(case):
-    return ' '.join(['weights', str(case['J']), str(len(case['groups']))] + group_tokens(case))
+    """the service as an object: stub tables + the eta value of every source position; the model
+    multiplies every cell's table with the eta values of the slice of source parameters it computes"""
+    J = case['J']
+    K = sum(len(W) for W in case['groups'])
+    t = ['weights', str(J), str(len(case['groups'])), str(K)] + [fhex(eta_of(k)) for k in range(K)]
+    for g, W in enumerate(case['groups']):
+        t.append(str(len(W)))
+        t += [fhex(w) for w in W]
+        for j in range(J):
+            y = stub_table(case, j, g)
+            t.append(str(len(y)))
+            t += [fhex(v) for v in y]
+    return ' '.join(t)
 
 
 def line_stack(a_k, d, which='stack'):
